@@ -303,12 +303,30 @@ type BranchOn struct {
 func StripNot(v ssa.Value) (ssa.Value, bool) {
 	pos := true
 	for {
-		u, ok := v.(*ssa.UnOp)
-		if !ok || u.Op.String() != "!" {
-			return v, pos
+		if u, ok := v.(*ssa.UnOp); ok && u.Op.String() == "!" {
+			v = u.X
+			pos = !pos
+			continue
 		}
-		v = u.X
-		pos = !pos
+		// b == true, b != false, b == false, b != true
+		if b, ok := v.(*ssa.BinOp); ok && (b.Op.String() == "==" || b.Op.String() == "!=") {
+			var other ssa.Value
+			var k, isc bool
+			if k, isc = ConstBool(b.Y); isc {
+				other = b.X
+			} else if k, isc = ConstBool(b.X); isc {
+				other = b.Y
+			}
+			if isc {
+				same := (b.Op.String() == "==") == k
+				v = other
+				if !same {
+					pos = !pos
+				}
+				continue
+			}
+		}
+		return v, pos
 	}
 }
 
